@@ -792,6 +792,17 @@ func (g *Gen) stmt(d int, last bool) N {
 		if g.types[n] == "fn" || g.types[n] == "set" || g.types[n] == "" {
 			g.types[n] = "int"
 		}
+		if op != "=" && g.chance(4) {
+			// the right-hand side assigns the target while it is evaluated: x op= e reads x BEFORE e runs
+			lit := Int(20 + g.R.Intn(9))
+			if want == "str" {
+				lit = g.strLit()
+			} else if want == "list" {
+				lit = List(Int(9))
+			}
+			e = Call(N{"k": "func", "params": []any{}, "name": "", "body": []any{
+				N{"k": "assign", "n": n, "op": "=", "e": lit}, ExprStmt(e)}})
+		}
 		return N{"k": "assign", "n": n, "op": op, "e": e}
 	case c == 7 && len(g.mut()) > 0:
 		ms := g.varsOf("int")
